@@ -280,6 +280,23 @@ class Interp:
     async def op_CLAIM(self, act, pc, r, amounts, body):
         await self._borrow(act, pc, r, amounts, body, 'claim')
 
+    async def op_CLAIMLATE(self, act, pc, r, amounts, wait, body):
+        """the claim object is created first and entered only after `wait` (availability is judged on entry)"""
+        ctx = self.ctx
+        res = self._res(act, r)
+        claim = res.claim(**amounts)
+        await (time + wait)
+        ctx.rec('res-acquiring', act, pc, (r, amounts, 'claim'))
+        try:
+            async with claim:
+                ctx.rec('res-held', act, pc, (r, amounts, 'claim'))
+                try:
+                    await self.block(act, body, pc)
+                finally:
+                    ctx.rec('res-releasing', act, pc, (r, amounts, 'claim'))
+        finally:
+            ctx.rec('res-gone', act, pc, (r, amounts, 'claim'))
+
     async def op_INC(self, act, pc, r, amounts):
         await self.ctx.objs[r].increase(**amounts)
 
